@@ -958,7 +958,9 @@ func term(in Input, o Obs) string {
 		lib.ZList(o.UnscopedFind), lib.ZList(o.NUnscopedFind), lib.ZList(o.UnscopedDel),
 		lib.ListOf(o.Assoc, lib.ZList), lib.ListOf(o.NAssoc, lib.ZList),
 		lib.ListOf(o.UAssoc, lib.ZList), lib.ListOf(o.NUAssoc, lib.ZList), lib.Z(int64(len(o.Errs)))}
-	return lib.App("mk_case", append(args, gHist(in, o)...)...)
+	args = append(args, gHist(in, o)...)
+	args = append(args, lib.ListOf(in.Rows, func(r Row) string { return lib.Pair(lib.Z(r.ID), lib.Z(r.Age)) }))
+	return lib.App("mk_case", args...)
 }
 
 func main() {
